@@ -901,7 +901,7 @@ func TestVerifChannelMachine(t *testing.T) {
 		rep.Infra("load behaviours: %v", err)
 	}
 	for bi, b := range behs {
-		if rep.Violations() >= 5 {
+		if unknownViolations(rep) >= 2 {
 			break
 		}
 		replay(rep, bi, b)
@@ -912,10 +912,10 @@ func TestVerifChannelMachine(t *testing.T) {
 
 	// ---- code -> spec: seeded random drivers, traces validated by TLC ----
 	rng := env.Rand()
-	for tr := 0; tr < env.Pick(80, 1200) && rep.Violations() == 0; tr++ {
+	for tr := 0; tr < env.Pick(80, 1200) && unknownViolations(rep) == 0; tr++ {
 		driveMachine(rep, rec, rng, 25+rng.Intn(40))
 	}
-	for tr := 0; tr < env.Pick(25, 250) && rep.Violations() == 0; tr++ {
+	for tr := 0; tr < env.Pick(25, 250) && unknownViolations(rep) == 0; tr++ {
 		driveReactor(rep, rec, rng, 20+rng.Intn(25))
 	}
 	// follower level: the scenarios of the candidate defects, then seeded cases (every 8th one ends
